@@ -111,6 +111,7 @@ def function_obligations(contract, mode, size, label=None, extra_posts=None, val
         if out[0] != 'ret':
             raise Unsupported("function ends with %s" % out[0])
         nret += 1
+        ctx.pc_hyp = pc2.hyp()
         for nm, f in contract.posts(st2, out[1], ctx):
             if f is True:
                 # still count it: a clause that folds to True on this path is discharged syntactically
@@ -126,6 +127,22 @@ def function_obligations(contract, mode, size, label=None, extra_posts=None, val
         stats['_paths'] = paths
         stats['_ctx'] = ctx
     return obls, stats
+
+
+def entailed(hyp, goal, timeout_ms=3000):
+    """cheap entailment query used to pick spec witnesses under a path condition (never used to discharge)"""
+    if goal is True:
+        return True
+    if goal is False:
+        return False
+    s = z3.Solver()
+    s.set('timeout', timeout_ms)
+    for h in hyp:
+        if h is True:
+            continue
+        s.add(h if h is not False else z3.BoolVal(False))
+    s.add(z3.Not(goal))
+    return s.check() == z3.unsat
 
 
 def jobs_from(obls, prefix, timeout_ms=30000, portfolio=True, cache=True, want_model=True):
